@@ -28,6 +28,7 @@ CPPFLAGS = ["-U", "__GNUC__", "-U", "__GNUC_MINOR__", "-D", "__STDC_NO_ATOMICS__
 STAGE2 = os.path.join(vlib.WORK, "stage2", "cproc-qbe")
 RUN_TIMEOUT = 30
 UNINIT_PAT = re.compile(r"uninitialised")
+ASSERT_FILE = re.compile(rb"^(@ARGV0@: )(?:[^ :]*/)?(\w+\.[ch]:\d+: \w+: Assertion )")
 # values of the `bin` dimension that run the hooks build with map.c's hash function substituted (H11)
 HASH_MODES = {"hash_xor": "xor:2654435769", "hash_const": "const", "hash_low2": "low2"}
 
@@ -111,6 +112,9 @@ def norm_stderr(err, spelling, argv0base):
         elif ln.startswith(a0 + b": "):
             ln = b"@ARGV0@" + ln[len(a0):]
             ln = ln.replace(b" " + sp + b":", b" @FILE@:")
+            # glibc assertion message "prog: FILE:LINE: func: Assertion ...": FILE is the __FILE__ spelling the binary was
+            # built with (stage 2 is built from /repo/x.c, the reference from x.c): a build-time input, not an environment
+            ln = ASSERT_FILE.sub(rb"\1\2", ln)
         out.append(ln)
     return b"\n".join(out)
 
@@ -406,6 +410,72 @@ def growth_inputs(ctx, add):
                     add("grow:%s:%d" % (kind, n), (hdr + _sized(kind, n)).encode(), "x86_64-sysv", "E" if kind in ("nest", "argtok") and n % 2 else "c")
 
 
+# ---- string literal + designated element overrides in static initializers -------------------------------
+# qbe.c emitdata patches an element override into the string literal's buffer.  When the literal is shorter than its array the
+# bytes between the literal's end and the overridden element come from wherever that buffer lives: shapes with an override at
+# every distance past the literal's end (across malloc size classes), for the four element widths, as struct member, 2-D array,
+# array of structs and plain array.
+STR_WIDTHS = [("char", '"abc"', "'x'"), ("unsigned short", 'u"abc"', "u'x'"), ("unsigned int", 'U"abc"', "U'x'"), ("int", 'L"abc"', "L'x'")]
+STR_DISTANCES = [1, 7, 8, 15, 16, 23, 24, 25, 40, 63, 100, 500]
+
+
+def _strinit(shape, wi, d, tag):
+    ty, lit, ch = STR_WIDTHS[wi]
+    k = 3 + d                      # "abc" has its NUL at index 3
+    n = k + 9
+    if shape == "member":
+        return "struct sm%s { %s s[%d]; int t; } m%s = { %s, .s[%d] = %s, .t = 5 };\n" % (tag, ty, n, tag, lit, k, ch)
+    if shape == "arr2d":
+        return "%s a%s[2][%d] = { %s, [0][%d] = %s, [1][1] = %s };\n" % (ty, tag, n, lit, k, ch, ch)
+    if shape == "structarr":
+        return "struct sa%s { int i; %s s[%d]; } r%s[2] = { [1].s = %s, [1].s[%d] = %s, [1].s[%d] = %s };\n" % (tag, ty, n, tag, lit, k, ch, k + 3, ch)
+    if shape == "plain":
+        return "static %s p%s[%d] = { %s, [%d] = %s };\n%s *q%s(void) { static %s l[%d] = { %s, [%d] = %s }; return l + p%s[0]; }\n" % (
+            ty, tag, n, lit, k, ch, ty, tag, ty, n, lit, k, ch, tag)
+    raise KeyError(shape)
+
+
+STR_SHAPES = ["member", "arr2d", "structarr", "plain"]
+
+
+def strinit_inputs(ctx, add):
+    n = 0
+    for si, shape in enumerate(STR_SHAPES):
+        for wi in range(len(STR_WIDTHS)):
+            add("strinit:%s:w%d:sweep" % (shape, wi),
+                "".join(_strinit(shape, wi, d, "%d_%d" % (wi, d)) for d in STR_DISTANCES).encode(), "x86_64-sysv", "c")
+            for di, d in enumerate(STR_DISTANCES):
+                if ctx.quick and (di + wi + si) % 3:
+                    continue
+                add("strinit:%s:w%d:d%d" % (shape, wi, d), _strinit(shape, wi, d, "x").encode(), "x86_64-sysv" if (di + wi) % 4 else "aarch64", "c")
+                n += 1
+    ctx.cov["strinit_inputs"] = n
+
+
+def pool_inputs(ctx, add, prop, count):
+    """inputs other properties' generators produced (corpus/pool.tar.xz, see corpus/README): initializer shapes of C07's Init.tla"""
+    import tarfile
+    path = os.path.join(vlib.VERIF, "corpus", "pool.tar.xz")
+    if not os.path.exists(path):
+        ctx.cov["pool_inputs"] = "corpus/pool.tar.xz absent"
+        return
+    members = []
+    with tarfile.open(path, "r:xz") as tf:
+        for m in tf:
+            if m.isfile() and m.name.startswith(prop + "/") and m.name.endswith(".c"):
+                members.append((m.name, tf.extractfile(m).read()))
+    members.sort()
+    ctx.rng.shuffle(members)
+    k = 0
+    for name, data in members[:count]:
+        base = os.path.basename(name)[:-2].split("+")
+        if len(base) != 3 or base[1] not in vlib.TARGETS or base[2] not in ("c", "E"):
+            continue
+        add("pool:%s:%s" % (prop, base[0]), data, base[1], base[2])
+        k += 1
+    ctx.cov["pool_inputs"] = {"property": prop, "available": len(members), "used": k}
+
+
 def make_inputs(ctx):
     """-> list of dict(name, text(bytes), t, m).  Deterministic for a seed."""
     rng = ctx.rng
@@ -434,6 +504,8 @@ def make_inputs(ctx):
         if k % 3 == 0:
             add("err:%d:E" % k, s.encode("latin-1"), "x86_64-sysv", "E")
     growth_inputs(ctx, add)
+    strinit_inputs(ctx, add)
+    pool_inputs(ctx, add, "C07", 150 if ctx.quick else 1200)
     texts = [(n, t.decode("latin-1"), a, m) for n, t, a, m in cor]
     pool = sorted({tok for _, t, _, _ in texts for tok in TOKRE.findall(t) if not tok.isspace() and len(tok) < 40}) + EXTRA_TOKS
     ntrunc, nmut = (60, 260) if ctx.quick else (200, 1200)
